@@ -35,6 +35,7 @@ Fixpoint val_of_sx (fuel : nat) (x : sx) : option val :=
       if is_tag "kres" t then match rest with SZ p :: r => option_map (VKRes p) (go r) | _ => None end else
       if is_tag "pyobj" t then match rest with [SZ p] => Some (VPyObj p) | _ => None end else
       if is_tag "sym" t then match rest with [SZ p] => Some (VSym p) | _ => None end else
+      if is_tag "u" t then Some VUndef else
       if is_tag "klong" t then Some VKlong else None
   | _ => None
   end end.
@@ -120,6 +121,11 @@ Definition form_of_sx (x : sx) : option form :=
       if is_tag "each" t then option_map FEach (vals_of_sx rest) else
       if is_tag "over" t then option_map FOver (vals_of_sx rest) else
       if is_tag "at" t then option_map FAt (vals_of_sx rest) else
+      if is_tag "each2" t then
+        match rest with
+        | [SL xs; SL ys] => match vals_of_sx xs, vals_of_sx ys with Some a, Some b => Some (FEach2 a b) | _, _ => None end
+        | _ => None
+        end else
       if is_tag "staged" t then option_map FStaged (stages_of_sx rest) else
       if is_tag "stagedeach" t then
         match rest with
@@ -145,6 +151,7 @@ Fixpoint sx_of_val (v : val) : sx :=
   | VPyObj p => SL [sx_w "pyobj"; SZ p]
   | VKlong => SL [sx_w "klong"]
   | VSym p => SL [sx_w "sym"; SZ p]
+  | VUndef => SL [sx_w "u"]
   end.
 
 Definition sx_of_res (r : res) : sx :=
